@@ -450,6 +450,7 @@ type FuncContract struct {
 	Acquires  []string // mutexes held on return
 	OnLock    []ModItem // state guarded by a mutex without a lockinv: havocked when the function first locks it
 	OnLockText []string
+	RulesOnly bool      // trusted postconditions, body checked for call-site rules only
 	OpaqueMul bool      // products of non-literal terms are uninterpreted (mulTerm)
 	Forbids   []string  // callees the function must never call
 	HasFSEffects bool   // fs_effects clause present
@@ -520,7 +521,7 @@ var clauseKeywords = map[string]bool{
 	"func": true, "on_lock": true, "extern": true, "requires": true, "requires_locked": true, "ensures": true, "modifies": true, "nopanic": true,
 	"loop": true, "specfunc": true, "ghost": true, "ghostsum": true, "ghost_set": true, "lockinv": true, "axiom": true, "trusted": true,
 	"pure": true, "inline": true, "held": true, "acquires": true, "assert": true, "package": true, "invariant": true, "lemma": true, "lemma_at": true, "unknown_calls_modify": true,
-	"assume_after": true, "callback": true, "closed_type": true, "fs_effects": true, "forbids": true, "opaque_mul": true,
+	"assume_after": true, "callback": true, "closed_type": true, "fs_effects": true, "forbids": true, "opaque_mul": true, "rules_only": true,
 }
 
 // splitLabel splits "label: expr" (label is a bare identifier followed by ':' but not '::').
@@ -797,6 +798,12 @@ func (cs *ContractSet) parseContractText(file, pkgPath string, lines []string, l
 			cur.NoPanic = true
 		case "trusted":
 			cur.Trusted = true
+		case "rules_only":
+			// rules_only: the postconditions are assumed (as with `trusted`: floating point, hashes...),
+			// but the body is still executed for its call-site rules, forbidden calls, frames of
+			// external effects and callee preconditions
+			cur.Trusted = true
+			cur.RulesOnly = true
 		case "pure":
 			cur.Pure = true
 		case "inline":
